@@ -1,110 +1,83 @@
 """C15 -- reported propagation metrics equal the instrumentation actually emitted."""
 import collections, random
 import vlib, framework as F
-from checks import common as C
+from checks import engine as E, common as C
+from checks.engine import Failure
 
-RULE = ("regression corpus + the repository's own test snippets + seeded random programs (gen/jsgen.py) under "
-        "configurations drawn from a pool (method subsets/renamings, every verbosity spelling); a case is "
-        "non-trivial when the implementation accepted it and emitted at least one hook call; distinct by source text")
+WHAT = "model,hooks,classes"
+RULE = ("regression corpus + the repository's own test snippets (also under verbosity OFF / INFORMATION / MANDATORY) + seeded random programs "
+        "(gen/jsgen.py) under configurations drawn from a pool (method subsets/renamings, every verbosity spelling); the extracted "
+        "hook-site counter / tagger (coq/HookSites.v) runs on the implementation's own output tree; a case is non-trivial when the "
+        "implementation accepted it and emitted at least one hook call; distinct by source text")
 LEVEL = "proof"
 
 
-def oracle(cin, cout, m, cfg):
-    """Returns (ok, what, info). Uses the extracted specification functions on the implementation's trees."""
-    met = C.impl_metrics(cout)
-    if met is None or m is None or "out_hook_count" not in m:
-        return True, "", {}
+def cases(O):
+    n = 300 if O.tier == "quick" else 4000
+    cs = F.regress_cases() + F.snippet_cases()
+    for v in ("OFF", "INFORMATION", "MANDATORY"):
+        cs += [dict(c, id=c["id"] + "-" + v, config=vlib.default_config(telemetryVerbosity=v)) for c in F.snippet_cases()[:40]]
+    cs += F.generated_cases(O.seed, n, "c15", cfg_fn=F.config_variants)
+    # orders matter: an instrumented operation followed / preceded by inspected-but-untouched ones, nested blocks
+    mixes = ["{ const a = b.trim(); const c = 'x' + 'y'; }", "{ const c = 'x' + 'y'; const a = b.trim(); }",
+             "function f(a){ const x = a + b; { const y = 1 + 2; const z = `q${'w'}`; } return 'a' + 'b'; }",
+             "function f(a){ { const y = 1 + 2; } const x = a + b; { const z = 'p' + 'q'; } }",
+             "function f(a){ s += 'lit'; const t = `x${a}`; u = 'a' + 'b' + 'c'; }",
+             "function f(a){ return a?.trim(); } function g(){ return 'x' + 'y'; }",
+             "function f(a){ return x.foo(1 + 2, a.substring(1)); }"]
+    for i, code in enumerate(mixes):
+        for v in ("DEBUG", "INFORMATION", "OFF"):
+            cs.append({"id": "c15mix-%d-%s" % (i, v), "config": vlib.default_config(telemetryVerbosity=v),
+                       "calls": [{"code": code, "file": "mix.js"}], "opts": {}})
+    cs += E.finding_cases("C15")
+    return cs
+
+
+def judge(ctx):
+    """Uses the extracted specification functions on the output tree."""
+    cin, m, cfg, met = ctx.cin, ctx.m, ctx.cfg, ctx.met
+    if met is None or "out_hook_count" not in m:
+        return []
     modified = met["status"] == "modified"
     hooks = m["out_hook_count"] - m.get("in_hook_count", 0) - (m.get("prologue_hook_count", 0) if modified else 0)
-    verb = cfg["verbosity"]
+    verb = cfg.get("verbosity")
     info = {"hooks": hooks, "count": met["instrumentedPropagation"], "verbosity": verb}
+    ctx.info = info
     if met["status"] not in ("modified", "notmodified"):
-        return False, "status string %r" % met["status"], info
+        return [Failure("status string: %r" % met["status"], info=info)]
     if met["file"] != cin["file"]:
-        return False, "metrics.file %r differs from the call's file %r" % (met["file"], cin["file"]), info
+        return [Failure("file name: metrics.file %r differs from the call's file %r" % (met["file"], cin["file"]), info=info)]
     if not modified:
         hooks = 0     # nothing is emitted for an unmodified file
     expected = 0 if verb == "OFF" else hooks
+    out = []
     if met["instrumentedPropagation"] != expected:
-        return False, "instrumentedPropagation=%d but %d hook call sites were emitted (verbosity %s)" % (met["instrumentedPropagation"], hooks, verb), info
+        classes = m.get("classes", [])
+        cls = "compound-target-instrumentable" if ("compound-target-instrumentable" in classes and met["instrumentedPropagation"] < hooks) else None
+        out.append(Failure("count: instrumentedPropagation=%d but %d hook call sites were emitted (verbosity %s)" % (met["instrumentedPropagation"], hooks, verb), cls=cls, info=info))
     if verb == "DEBUG":
         tags = collections.Counter(m.get("out_hook_tags", [])) - collections.Counter(m.get("in_hook_tags", []))
         if not modified:
             tags = collections.Counter()
         if dict(tags) != (met.get("propagationDebug") or {}):
-            return False, "propagationDebug=%s but the emitted hook sites are tagged %s" % (met.get("propagationDebug"), dict(tags)), info
+            classes = m.get("classes", [])
+            cls = "compound-target-instrumentable" if "compound-target-instrumentable" in classes else None
+            out.append(Failure("tags: propagationDebug=%s but the emitted hook sites are tagged %s" % (met.get("propagationDebug"), dict(tags)), cls=cls, info=info))
     else:
         if met.get("propagationDebug") is not None:
-            return False, "propagationDebug present with verbosity %s" % verb, info
-    return True, "", info
+            out.append(Failure("tags: propagationDebug present with verbosity %s" % verb, info=info))
+    return out
 
 
-def projection_agrees(cout, m):
-    ok, why = C.model_agrees_basic(cout, m)
-    if not ok:
-        return ok, why
-    met = C.impl_metrics(cout)
-    if met is None:
-        return True, ""
-    if met["instrumentedPropagation"] != m.get("model_count"):
-        return False, "count impl=%s model=%s" % (met["instrumentedPropagation"], m.get("model_count"))
-    if met.get("propagationDebug") is not None:
-        if dict(collections.Counter(m.get("model_tags", []))) != met["propagationDebug"]:
-            return False, "tags impl=%s model=%s" % (met["propagationDebug"], m.get("model_tags"))
-    return True, ""
+def nontrivial(ctx):
+    return ctx.modified and ctx.m.get("out_hook_count", 0) > 0
+
+
+def sample_info(ctx):
+    return getattr(ctx, "info", None)
 
 
 def run(O, P):
-    n = 300 if O.tier == "quick" else 4000
-    cases = F.regress_cases()
-    cases += F.snippet_cases()
-    for v in ("OFF", "INFORMATION", "MANDATORY"):
-        cases += [dict(c, id=c["id"] + "-" + v, config=vlib.default_config(telemetryVerbosity=v)) for c in F.snippet_cases()[:40]]
-    cases += F.generated_cases(O.seed, n, "c15", cfg_fn=F.config_variants)
-    known = C.known_for("C15")
-    fixed = C.fixed_for("C15")
-    for k in known + fixed:
-        cases.append({"id": "finding-" + k["id"], "config": k["witness"].get("config") or vlib.default_config(),
-                      "calls": [{"code": k["witness"]["code"], "file": k["witness"].get("file", "t.js")}], "opts": {}})
-    results = C.run_cases(cases, "model,hooks,classes", "c15")
-    verbs = collections.Counter()
-    known_seen = set()
-    for case, r, calls in results:
-        for cin, cout, m in calls:
-            O.evaluations += 1
-            cfg = r.get("config") or {}
-            verbs[cfg.get("verbosity")] += 1
-            ok, what, info = oracle(cin, cout, m, cfg)
-            if info.get("hooks", 0) > 0 and cout.get("outcome") == "ok":
-                O.nontrivial.add(cin["code"])
-                if len(O.samples) < 6:
-                    O.samples.append(C.sample_of(case, info))
-            is_finding_case = case["id"].startswith("finding-")
-            if not ok:
-                classes = (m or {}).get("classes", [])
-                kk = [k for k in known if k["class"] in classes and "hook call sites were emitted" in what
-                      and info["count"] < info["hooks"]]
-                if kk:
-                    known_seen.add(kk[0]["id"])
-                else:
-                    code = cin["code"]
-                    if not is_finding_case and O.tier == "quick" and len(O.violations) < 2:
-                        def still(text):
-                            cc = dict(case, calls=[dict(cin, code=text)])
-                            rr = C.run_cases([cc], "model,hooks,classes", "c15s")[0]
-                            a, b, mm = rr[2][0]
-                            return not oracle(a, b, mm, rr[1].get("config") or {})[0]
-                        code = F.shrink_program(code, still)
-                    O.violation(what, {"case": dict(case, calls=[dict(cin, code=code)]), "impl_metrics": C.impl_metrics(cout), "info": info})
-                continue
-            pok, why = projection_agrees(cout, m)
-            if not pok:
-                O.break_("correspondence pi_C15 (status, count, tags) model vs implementation: " + why,
-                         {"case": C.one_call_case(case), "correspondence": "pi_C15", "detail": why})
-    for k in known:
-        if k["id"] in known_seen:
-            O.known.append("%s: %s" % (k["id"], k["what"]))
-    O.coverage["verbosity_distribution"] = dict((str(k), v) for k, v in verbs.items())
-    O.coverage["cases"] = len(cases)
+    E.run(O, P, __import__("checks.C15", fromlist=["x"]), "C15")
     O.assumptions += ["hook sites of an output are recognised syntactically (call whose callee is _ddiast.<name>); inputs that already mention _ddiast are discounted by subtracting the input's own sites",
                       "swc's serde serialization of its AST is faithful (harness dump)"]
